@@ -15,7 +15,7 @@
    fuel); the model is exact rational arithmetic. *)
 Require Import KV.Prov.Model KV.Prov.Instances KV.Prov.Spec KV.Prov.Annot KV.Prov.ProvProofs KV.Prov.HomProofs
         KV.Prov.DnfProofs KV.Prov.SpecFacts KV.Prov.WmcProofs KV.Prov.SeedProofs KV.Prov.MatcherProofs KV.Prov.InstProofs
-        KV.Prov.Negation KV.Prov.NegProofs KV.Prov.NegClass KV.Prov.SpecProofs.
+        KV.Prov.Negation KV.Prov.NegProofs KV.Prov.NegClass KV.Prov.SpecProofs KV.Prov.TTProofs.
 Open Scope N_scope.
 
 (* ===== (1) every DNF operation denotes the Boolean operation, in every world ============================== *)
@@ -206,6 +206,13 @@ Theorem C06_dnf_is_exact_bf : forall table, table_ok table ->
     exact_bf dnf_prov (N.of_nat (length table)) table sem (dnf_bounded (N.of_nat (length table))).
 Proof. exact dnf_exact_bf. Qed.
 Print Assumptions C06_dnf_is_exact_bf.
+
+(* ... and so are truth tables over the seed variables (Instances.tt_prov), the executable stand-in for the SDD mode
+   in the correspondence check *)
+Theorem C06_tt_is_exact_bf : forall table, table_ok table ->
+    exact_bf (tt_prov (N.of_nat (length table))) (N.of_nat (length table)) table (fun W t => N.testbit t W) (fun _ => True).
+Proof. exact tt_exact_bf. Qed.
+Print Assumptions C06_tt_is_exact_bf.
 
 (* --- rules with negation (single negative stratum pass), exact modes.  In the class where one pass suffices - no
    conclusion of a rule with negation is a fact of the positive fixpoint (in particular when those conclusions use a
